@@ -59,8 +59,9 @@ class Shadow:
         #               names so that its records end exactly on / just before / just after a sector boundary, then shrinks
         #   resurrect - removed names come back (same identifiers), and the resurrected directory gets children
         #   rrhole    - Rock Ridge names of nearly equal, continuation-area lengths, so freed holes are reused +-1 byte
+        #   deep      - a chain of seven nested directories first, so that later edits happen at depth 8 (Rock Ridge relocation)
         r = rng.random()
-        self.family = 'plain' if r < 0.5 else 'burst' if r < 0.72 else 'resurrect' if r < 0.9 else 'rrhole'
+        self.family = 'plain' if r < 0.45 else 'burst' if r < 0.65 else 'resurrect' if r < 0.82 else 'rrhole' if r < 0.91 else 'deep'
         self.graveyard = []
         self.freed_rr_len = None
         self.focus_parent = None
@@ -69,6 +70,8 @@ class Shadow:
         self.burst_files = []
         if self.family == 'burst':
             self._plan_burst()
+        if self.family == 'deep':
+            self.plan = [('chain', i) for i in range(7)]
         self.extra = len(self.plan)
 
     # ---- names
@@ -212,6 +215,22 @@ class Shadow:
     def _planned(self):
         rng = self.rng
         step = self.plan.pop(0)
+        if step[0] == 'chain':
+            parent = self.focus_parent if step[1] > 0 else self.root
+            if parent is None or parent not in self.nodes:
+                self.plan = []
+                return None
+            nss = [ns for ns in self.nss if parent.parent is None or ns in parent.names]
+            tag = 'N%d' % step[1]
+            names = {ns: (tag if ns == 'i' else tag.lower()) for ns in nss}
+            if any(names[ns] in self.siblings(parent, ns) for ns in nss):
+                self.plan = []
+                return None
+            node = Node('dir', parent, names, rr=tag.lower() if self.cfg.get('rr') and 'i' in names else None)
+            self.focus_parent = node
+            op = {'op': 'adddir'}
+            self._fill_paths(op, parent, node)
+            return op, ('add', node)
         if step[0] == 'dir':
             parent = self.root if step[1] == 'top' else self.burst_dir
             if parent is None or parent not in self.nodes:
@@ -302,6 +321,8 @@ class Shadow:
         if r < 0.56:
             cands = [d for d in self.dirs() if d.depth() < limit - 1]
             parent = rng.choice(cands)
+            if self.focus_parent is not None and self.focus_parent in cands and rng.random() < 0.6:
+                parent = self.focus_parent
             nss = self.pick_namespaces(parent)
             if not nss:
                 return None
@@ -498,6 +519,18 @@ def directed(cfg):
     out.append(('link-same-name-removed', ops))
     ops2 = [dict(o) for o in ops[:4]] + [{'op': 'rmlink', 'ns': 'i', 'path': '/FOO.;1'}] + [adddir(root, 'M%d' % i, 'm%d' % i) for i in range(4)]
     out.append(('link-same-name-original-removed', ops2))
+    if cfg.get('rr') and cfg['ilevel'] < 4:
+        # deep directories: the 8th level is relocated to RR_MOVED (placeholder with CL in place, real record with RE)
+        chain, ip, op_ = [], '', ''
+        for i in range(7):
+            chain.append(adddir((ip, op_), 'L%d' % i, 'l%d' % i))
+            ip, op_ = ip + '/L%d' % i, op_ + '/l%d' % i
+        deep = lambda nm, rrn: dict({'op': 'adddir', 'iso': ip + '/' + nm, 'rr': rrn}, **({'joliet': op_ + '/' + nm.lower()} if cfg.get('joliet') else {}))  # noqa
+        rmdeep = lambda nm: dict({'op': 'rmdir', 'iso': ip + '/' + nm}, **({'joliet': op_ + '/' + nm.lower()} if cfg.get('joliet') else {}))  # noqa
+        out.append(('reloc-two-long-names', chain + [deep('DEEPA', 'a' * 150), deep('DEEPB', 'b' * 150),
+                                                     dict({'op': 'addfp', 'cid': 2001, 'n': 9, 'iso': ip + '/DEEPA/X.;1', 'rr': 'x'},
+                                                          **({'joliet': op_ + '/deepa/x'} if cfg.get('joliet') else {}))]))
+        out.append(('reloc-remove-readd', chain + [deep('DEEP', 'deep'), rmdeep('DEEP'), deep('DEEP', 'deep'), deep('DEEQ', 'q' * 200), rmdeep('DEEQ')]))
     if cfg.get('udf'):
         # UDF File Identifiers: parent 40 bytes + 2 x 44 + 40 x 48 = 2048 exactly, then the list continues
         def uf(name, n=1):
